@@ -23,7 +23,7 @@ from ufl.core.multiindex import Index
 
 from ufv import elements as E
 from ufv import num as N
-from ufv.core import proved, undecided, violated
+from ufv.core import crash_text, deliberate, proved, undecided, violated
 from ufv.den import World, den
 from ufv.forms import check_form, form_parts, part_sum
 from ufv.opq import mesh
@@ -126,6 +126,8 @@ def build(run):
             try:
                 L = lhs(F)
             except ValueError as ex:
+                if not deliberate(ex):
+                    return violated(f"crash instead of a result or a refusal: {crash_text(ex)}", reproduced=True, backend="exec")
                 return proved("refused", sample=f"lhs refuses: {ex}"[:200])
             return check_form(world(), L, lambda w, key: N.add(N.sub(N.sub(P(w, Fe, key, 1, 1), P(w, Fe, key, 1, 0)), P(w, Fe, key, 0, 1)), P(w, Fe, key, 0, 0)),
                               [Fe], f"lhs({fname})", tmo)
@@ -138,6 +140,8 @@ def build(run):
             try:
                 R = rhs(F)
             except ValueError as ex:
+                if not deliberate(ex):
+                    return violated(f"crash instead of a result or a refusal: {crash_text(ex)}", reproduced=True, backend="exec")
                 return proved("refused", sample=f"rhs refuses: {ex}"[:200])
             return check_form(world(), R, lambda w, key: N.neg(N.sub(P(w, Fe, key, 1, 0), P(w, Fe, key, 0, 0))), [Fe], f"rhs({fname})", tmo)
         run.add(f"rhs/{fname}", rhs_ob, kind="values")
@@ -149,6 +153,8 @@ def build(run):
             try:
                 L, R = system(F)
             except ValueError as ex:
+                if not deliberate(ex):
+                    return violated(f"crash instead of a result or a refusal: {crash_text(ex)}", reproduced=True, backend="exec")
                 return proved("refused", sample=f"system refuses: {ex}"[:200])
             LR = (L if L != 0 else None, R if R != 0 else None)
 
@@ -191,6 +197,8 @@ def build(run):
             try:
                 Z = functional(F)
             except ValueError as ex:
+                if not deliberate(ex):
+                    return violated(f"crash instead of a result or a refusal: {crash_text(ex)}", reproduced=True, backend="exec")
                 return proved("refused", sample=f"functional refuses: {ex}"[:200])
             return check_form(world(), Z, lambda w, key: P(w, Fe, key, 0, 0), [Fe], f"functional({fname})", tmo)
         run.add(f"functional/{fname}", fun_ob, kind="values")
@@ -226,6 +234,8 @@ def build(run):
             try:
                 r = energy_norm(a, co)
             except ValueError as ex:
+                if not deliberate(ex):
+                    return violated(f"crash instead of a result or a refusal: {crash_text(ex)}", reproduced=True, backend="exec")
                 return proved("refused", sample=f"energy_norm refuses: {ex}"[:200])
             from ufl.algorithms import expand_derivatives
             ae = expand_derivatives(a)
@@ -239,6 +249,8 @@ def build(run):
             try:
                 r = energy_norm(a)
             except ValueError as ex:
+                if not deliberate(ex):
+                    return violated(f"crash instead of a result or a refusal: {crash_text(ex)}", reproduced=True, backend="exec")
                 return proved("refused", sample=f"energy_norm refuses: {ex}"[:200])
             new = [c_ for c_ in r.coefficients() if c_ not in a.coefficients()]
             if len(new) != 1 or new[0].ufl_function_space() != a.arguments()[-1].ufl_function_space():
